@@ -237,6 +237,8 @@ def logfile(n, dim, idmode, xkind, ykind, interval, kmode):
             if ident is not None and isinstance(st, tuple) and len(st) == 2:
                 obs.append(('id[%d]' % i, id_is(st[1], ident)))
             obs.append(('params[%d]' % i, same_seq(param[j], x)))
+            obs.append(('params-are-a-flat-list-of-the-recorded-length[%d]' % i, const(isinstance(param[j], (list, tuple)) and len(param[j]) == dim
+                                                                                        and not any(isinstance(e, (list, tuple)) for e in param[j]))))
             obs.append(('cost[%d]' % i, same_seq(cost[j], y)))
             obs.append(('cost-keeps-shape[%d]' % i, const(isinstance(cost[j], (list, tuple)) == isinstance(y, list))))
         obs.append(('read_trajectories==logfile_reader', And(same_seq(param2, param), same_seq(cost2, cost))))
@@ -325,6 +327,7 @@ def file_instances(tier):
         grid.append((3, 3, 'sym', 'array', 'special', 1, 'none'))
     for g in grid:
         out.append(Instance('logfile/n=%d/dim=%d/id=%s/x=%s/y=%s/interval=%d/k=%s' % g, logfile(*g)))
+    out.append(Instance('pyfile/raw/n=3/dim=1/id=sym/y=scalar', pyfile('raw', 3, 1, 'sym', 'scalar')))       # (ids a, b, a: first == last, not all equal)
     for kind in ('raw', 'support', 'converge'):
         for n in ((2,) if q else (1, 2, 3)):
             for idmode in ('none', 'sym', 'mixed'):
